@@ -16,7 +16,18 @@
      Z <limit> <size>          limitSize
      O <entries> <last>        content/oci listTags
      X <limit> <found> <size> <items> <at> <cbfail>   referrers tag schema
-     P <U|S|N> <status> <nameunknown> <ctype>   pingReferrers: answer (1|0|E), state, requests *)
+     P <U|S|N> <status> <nameunknown> <ctype>   pingReferrers: answer (1|0|E), state, requests
+     CA <the fields of a C line>    registry.Tags / registry.Repositories / registry.Referrers / Predecessors
+     CS <scheme> <host> <the fields of a C line>   the whole page loop on strings (raw requests)
+     U <T|K|R> <n> <scheme> <host> <base path> <base raw query> <Link header>   the next request on strings
+     U0 <T|K|R> <n> <at> <last>     raw query of the first request
+     QS <raw> {<key> <value>}       setQueryParams
+     QE <s>                         url.QueryEscape, url.QueryUnescape
+     QL <raw>                       the registry's lenient reading of a raw query
+     RR <scheme> <host> <base path> <base raw query> <ref>   net/url: base.Parse(ref)
+     RB <limit> <docend> <total>    body bytes the client consumes (limitReader + json.Decoder buffering)
+     XB <limit> <size>              bytes consumed of the referrers index of the tag schema
+     J <bytes>                      json.Decoder: end offset of the first (bracketed) value, or incomplete *)
 let z_of_int (i : int) : z =
   if i = 0 then Z0 else if i > 0 then Zpos (pos_of_int i) else Zneg (pos_of_int (- i))
 
@@ -102,6 +113,34 @@ let run_client toks =
           { u_path = str_of_hex path; u_query = query_of_tok q } (str_of_hex last))
   | _ -> failwith "client line"
 
+(* the loop on strings for a CS line: sch host <the fields of a C line> *)
+let run_client_s toks =
+  match toks with
+  | sch :: host :: kd :: n :: limit :: at :: last :: cbf :: path :: _ :: nresp :: rest ->
+      let cfg = { c_kind = kind_of_tok kd; c_n = z_of_int (int_of_string n);
+                  c_limit = z_of_int (int_of_string limit); c_at = str_of_hex at } in
+      let nr = int_of_string nresp in
+      let rec parse k toks =
+        if k = 0 then [] else
+        let (r, toks') = take 13 toks in
+        match r with
+        | [st; nu; ct; js; dl; tl; its; links; fh; fa; _; _; _] ->
+          { rs_status = n_of_int (int_of_string st); rs_name_unknown = bool_tok nu; rs_ctype = str_of_hex ct;
+            rs_json_ok = bool_tok js;
+            rs_doc_len = n_of_int (int_of_string dl); rs_total_len = n_of_int (int_of_string tl);
+            rs_items = items_of_tok its; rs_links = strs_of_tok links; rs_fhdr = str_of_hex fh;
+            rs_fann = str_of_hex fa } :: parse (k - 1) toks'
+        | _ -> failwith "resp" in
+      let script = Array.of_list (parse nr rest) in
+      let dead = { rs_status = n_of_int 599; rs_name_unknown = false; rs_ctype = []; rs_json_ok = false; rs_doc_len = N0;
+                   rs_total_len = N0; rs_items = []; rs_links = []; rs_fhdr = []; rs_fann = [] } in
+      let serve i _ = let i = int_of_nat i in if i < Array.length script then script.(i) else dead in
+      let cbfail = int_of_string cbf in
+      let q0 = (match cfg.c_kind with KReferrers -> referrers_q0 cfg.c_at | _ -> []) in
+      loop_s (str_of_hex sch) (str_of_hex host) serve (fun k -> int_of_nat k = cbfail) cfg (nat_of_int (nr + 2)) O O
+        (str_of_hex path) q0 (str_of_hex last)
+  | _ -> failwith "client line"
+
 let () =
   iter_lines (fun l ->
     match split_ws l with
@@ -110,6 +149,17 @@ let () =
       Printf.printf "%s R %s P %d %s O %s\n" id
         (String.concat "|" (List.map tok_of_url tr.t_reqs))
         (List.length tr.t_pages) (tok_of_pages tr.t_pages) (out_name tr.t_out)
+    | id :: "CA" :: rest ->
+      let (cfg, tr) = run_client rest in
+      let (o, items) = collect_all tr in
+      Printf.printf "%s I %s O %s\n" id (tok_of_items items) (out_name o)
+    | id :: "CS" :: rest ->
+      (match run_client_s rest with
+       | None -> Printf.printf "%s UNJUDGED\n" id
+       | Some tr ->
+         Printf.printf "%s R %s P %d %s O %s\n" id
+           (match tr.st_reqs with [] -> "_" | rs -> String.concat "|" (List.map (fun r -> hex_of_str r.sr_path ^ "?" ^ hex_of_str r.sr_query) rs))
+           (List.length tr.st_pages) (tok_of_pages tr.st_pages) (out_name tr.st_out))
     | id :: "W" :: st :: cbu :: found :: size :: tsitems :: rest ->
       let (cfg, tr) = run_client rest in
       let cbfail = (match rest with _ :: _ :: _ :: _ :: _ :: cbf :: _ -> int_of_string cbf | _ -> -1) in
@@ -168,5 +218,41 @@ let () =
       Printf.printf "%s %s %s %d\n" id (match r with Some true -> "1" | Some false -> "0" | None -> "E")
         (match st' with RUnknown -> "U" | RSupported -> "S" | RUnsupported -> "N")
         (match state with RUnknown -> 1 | _ -> 0)
+    | [id; "U"; kd; n; sch; host; bpath; bq; hdr] ->
+      let cfg = { c_kind = kind_of_tok kd; c_n = z_of_int (int_of_string n); c_limit = Z0; c_at = [] } in
+      let base = { s_scheme = str_of_hex sch; s_host = str_of_hex host; s_path = str_of_hex bpath; s_query = str_of_hex bq } in
+      (match next_request cfg base (str_of_hex hdr) with
+       | NNone -> Printf.printf "%s NONE\n" id
+       | NErrLink -> Printf.printf "%s ERRLINK\n" id
+       | NErrResolve -> Printf.printf "%s ERRRESOLVE\n" id
+       | NUnjudged -> Printf.printf "%s UNJUDGED\n" id
+       | NNext (p, q) -> Printf.printf "%s NEXT %s %s\n" id (hex_of_str p) (hex_of_str q))
+    | [id; "U0"; kd; n; at; last] ->
+      let cfg = { c_kind = kind_of_tok kd; c_n = z_of_int (int_of_string n); c_limit = Z0; c_at = str_of_hex at } in
+      let q0 = (match cfg.c_kind with KReferrers -> referrers_q0 (str_of_hex at) | _ -> []) in
+      Printf.printf "%s %s\n" id (hex_of_str (first_query cfg q0 (str_of_hex last)))
+    | id :: "QS" :: raw :: kvs ->
+      let rec pairs = function k :: v :: r -> (str_of_hex k, str_of_hex v) :: pairs r | _ -> [] in
+      Printf.printf "%s %s\n" id (hex_of_str (set_query_params (str_of_hex raw) (pairs kvs)))
+    | [id; "QE"; s] ->
+      Printf.printf "%s %s %s\n" id (hex_of_str (query_escape (str_of_hex s)))
+        (match query_unescape (str_of_hex s) with Some t -> hex_of_str t | None -> "!")
+    | [id; "QL"; raw] ->
+      let kvs = List.stable_sort (fun (k1, _) (k2, _) -> compare (hex_of_str k1) (hex_of_str k2)) (parse_query_lenient (str_of_hex raw)) in
+      Printf.printf "%s %s\n" id (match kvs with [] -> "_" | _ -> String.concat "&" (List.map (fun (k, v) -> hex_of_str k ^ "=" ^ hex_of_str v) kvs))
+    | [id; "RB"; limit; docend; total] ->
+      Printf.printf "%s %d\n" id (int_of_n (consumed_of (z_of_int (int_of_string limit)) (n_of_int (int_of_string docend)) (n_of_int (int_of_string total))))
+    | [id; "XB"; limit; size] ->
+      Printf.printf "%s %d\n" id (int_of_n (consumed_index (z_of_int (int_of_string limit)) (n_of_int (int_of_string size))))
+    | [id; "J"; doc] ->
+      (match scan (str_of_hex doc) with
+       | Some m -> Printf.printf "%s OK %d\n" id (int_of_nat m)
+       | None -> Printf.printf "%s INC\n" id)
+    | [id; "RR"; sch; host; bpath; bq; r] ->
+      let base = { s_scheme = str_of_hex sch; s_host = str_of_hex host; s_path = str_of_hex bpath; s_query = str_of_hex bq } in
+      (match resolve_ref base (str_of_hex r) with
+       | RErr -> Printf.printf "%s ERR\n" id
+       | RUnjudged -> Printf.printf "%s UNJUDGED\n" id
+       | ROk u -> Printf.printf "%s OK %s %s %s %s\n" id (hex_of_str u.s_scheme) (hex_of_str u.s_host) (hex_of_str u.s_path) (hex_of_str u.s_query))
     | [] -> ()
     | _ -> Printf.printf "BADLINE %s\n" l)
